@@ -24,6 +24,7 @@ func init() {
 type c20Step struct {
 	Fault string `json:"fault"` // "" = valid input
 	NOps  int    `json:"nOps"`
+	SameLen bool `json:"same_len,omitempty"` // before a step, pre-existing outputs are replaced by stale bytes of exactly the NEW output's length (seeded change C20-r11)
 	Pad   int    `json:"pad"` // bytes of junk appended to pre-existing outputs before the step (simulates longer old output)
 	MoveOps bool `json:"moveOps,omitempty"` // the same operations, now in a file of another name: only sourceLocation in the exported operations changes
 }
@@ -149,6 +150,8 @@ func runC20(c *Ctx) {
 			}
 			if r.Chance(1, 4) {
 				st.Pad = 50 + r.Intn(3000)
+			} else if r.Chance(1, 3) {
+				st.SameLen = true
 			}
 			cs.Steps = append(cs.Steps, st)
 		}
@@ -239,6 +242,16 @@ func c20Run(c *Ctx, cs c20Case) {
 			}
 			want = m
 		}()
+		if st.SameLen && want != nil {
+			// what is on disk has exactly the size of what this run must write, and other bytes
+			for _, p := range []string{gen, exp} {
+				if w, ok := want[p]; ok && len(w) > 0 {
+					os.WriteFile(p, bytes.Repeat([]byte("~"), len(w)), 0o644)
+					os.Chtimes(p, old, old)
+					before[p] = statFile(p)
+				}
+			}
+		}
 		var err error
 		var pan any
 		func() {
